@@ -22,10 +22,10 @@ WARM_CODE = 'import outrank.task_ranking'
 
 def plan(tier, seed):
     shards = []
-    k = 6 if tier == 'quick' else 14
+    k = 6 if tier == 'quick' else 36
     for i in range(k):
         shards.append({'name': 'direct-%d' % i, 'fn': 'shard_direct', 'args': {'part': i}})
-    for i in range(1 if tier == 'quick' else 4):
+    for i in range(1 if tier == 'quick' else 10):
         shards.append({'name': 'pipeline-%d' % i, 'fn': 'shard_pipeline', 'args': {'part': i}})
     return shards
 
